@@ -23,6 +23,12 @@ func (core *JApiCore) processInclude(keyword *scanner.Lexeme) *jerr.JApiError {
 		return japiErrorForLexeme(keyword, fmt.Sprintf("%s (%s)", jerr.DirectiveNotAllowed, directive.Include.String()))
 	}
 
+	// The directive before the INCLUDE is complete, it has to be processed while
+	// the scanner stack still describes the file it was written in.
+	if je := core.processCurrentDirective(); je != nil {
+		return je
+	}
+
 	path, je := core.getIncludedFilePath(keyword)
 	if je != nil {
 		return je
